@@ -5,7 +5,7 @@ import re
 
 from ..common import Check, drive, replay as _replay, uncps, cps, NPROC
 from ..serial import outcome
-from ..docs import rule_dict
+from ..docs import rule_dict, convert_via
 from ..backend import make_backend
 
 
@@ -68,9 +68,8 @@ def drive_case(case):
 
     def conv(with_pipeline):
         def go():
-            rule = SigmaRule.from_dict(rule_dict(case["doc"]))
             p = ProcessingPipeline.from_dict(pipeline_dict(case["Ts"])) if with_pipeline else None
-            return [cps(q) for q in make_backend(K_of(case), p).convert_rule(rule)]
+            return [cps(q) for q in convert_via(rule_dict(case["doc"]), make_backend(K_of(case), p), case["id"])]
 
         return go
 
